@@ -264,6 +264,12 @@ fn include_fixture() -> String {
     })
 }
 
+/// (include-cycle) parsing a file that (transitively) includes itself terminates with an error - in a child process,
+/// because the failure mode is a stack overflow
+fn case_cycle(t: &mut Tape, st: &mut Stats) -> Verdict {
+    crate::props::c07::case_cycle_for("C08", t, st)
+}
+
 fn case_planted(t: &mut Tape, st: &mut Stats) -> Verdict {
     let n = 1 + t.len(60);
     let k = t.below(n); // 0-based position of the malformed line
@@ -344,7 +350,7 @@ fn case_planted(t: &mut Tape, st: &mut Stats) -> Verdict {
 pub fn property() -> Property {
     Property {
         id: "C08",
-        rule: "(text) arbitrary texts from a syntax-character soup / hazard strings / random Unicode with LF, CRLF line ends and occasional 20k-char lines: parse_text must return, and when it accepts a text without '!' lines the instruction list must have one entry per line (own splitter) with 1-based line numbers and Empty for blank/# lines; (planted) a well-formed generated script (one case in five with an !include_files directive of a well-formed file on an earlier line) with exactly one malformed line of a documented kind at a random position must be rejected with the matching error kind and that line number, and must parse once that line is blanked. Non-trivial: text with >=2 lines and a syntax character / planted line not first in a script of >2 lines; distinct by text hash",
+        rule: "(text) arbitrary texts from a syntax-character soup / hazard strings / random Unicode with LF, CRLF line ends and occasional 20k-char lines: parse_text must return, and when it accepts a text without '!' lines the instruction list must have one entry per line (own splitter) with 1-based line numbers and Empty for blank/# lines; (planted) a well-formed generated script (one case in five with an !include_files directive of a well-formed file on an earlier line) with exactly one malformed line of a documented kind at a random position must be rejected with the matching error kind and that line number, and must parse once that line is blanked. (include-cycle) include cycles of length 1..4 named by relative, absolute and non-canonically spelled absolute paths, parsed in a child process: the parse ends with an error, the process is not killed. Non-trivial: text with >=2 lines and a syntax character / planted line not first in a script of >2 lines; distinct by text hash",
         assumptions: &[
             "texts containing lines starting with '!' are excluded from the count/shape check (include/print directives belong to C14)",
             "'blank' is asserted only for lines made of spaces/tabs or starting with '#' after removing spaces/tabs",
@@ -367,6 +373,15 @@ pub fn property() -> Property {
                 },
                 case: case_planted,
                 min_classes: &[("unterminated-quote", 1000), ("bad-escape-quoted", 200), ("trailing-backslash", 200), ("dollar-escape-without-brace", 500), ("dollar-escape-at-end-of-line", 300), ("quote-in-name", 1000), ("backslash-in-name", 1000), ("bang-alone", 1000), ("unknown-preprocess", 1000), ("include-directive-before-the-malformed-line", 5000)],
+            },
+            Section {
+                name: "include-cycle",
+                plan: |t| match t {
+                    Tier::Quick => Plan::Random { cases: 96, max_len: 4 },
+                    Tier::Thorough => Plan::Random { cases: 1_200, max_len: 4 },
+                },
+                case: case_cycle,
+                min_classes: &[("cycle-through-a-non-canonical-absolute-path", 20)],
             },
         ],
         probes: vec![],
